@@ -115,7 +115,7 @@ func cmdCheck(args []string) int {
 			fmt.Println("queries kept in", dir)
 		}
 	}()
-	opt := solveOpts{timeout: 10 * time.Second, workers: runtime.NumCPU(), dir: dir, solvers: []string{"z3new", "z3", "cvc5"}, keep: *keep}
+	opt := solveOpts{timeout: 20 * time.Second, workers: runtime.NumCPU(), dir: dir, solvers: []string{"z3new", "z3", "cvc5"}, keep: *keep}
 	if *tier == "thorough" {
 		opt.timeout = 60 * time.Second
 		opt.allAgree = true
